@@ -417,6 +417,10 @@ func (g *c14Gen) writeStruct(path, ind string, v reflect.Value, mu *mutation, sb
 					bad := "[\"a\", \"list\"]"
 					if fv.Kind() == reflect.Slice || fv.Kind() == reflect.Map {
 						bad = "true"
+					} else if ti.kind == "attr" && g.r.Chance(1, 3) {
+						bad = "null" // a required setting must have a value
+					} else if (fv.Kind() == reflect.Int || fv.Kind() == reflect.Bool) && g.r.Chance(1, 2) {
+						bad = gen.Pick(g.r, []string{"\"\"", "\"x\"", "{}"}) // an empty / non-numeric text where a number or a switch is needed
 					}
 					sb.WriteString(ind + ti.name + " = " + bad + "\n")
 					return
